@@ -65,6 +65,15 @@ fn eval_same_env() -> bool { unsafe { EVAL_SAME_ENV } }
 fn eval_depth() -> usize { unsafe { EVAL_DEPTH } }
 fn expect_env(e: &Rc<Environment>) { unsafe { EXPECT_ENV = Some(Rc::clone(e)); } }
 
+macro_rules! dispatch16 {
+    ($i:expr, $f:ident) => {
+        match $i {
+            0 => $f(0), 1 => $f(1), 2 => $f(2), 3 => $f(3), 4 => $f(4), 5 => $f(5), 6 => $f(6), 7 => $f(7),
+            8 => $f(8), 9 => $f(9), 10 => $f(10), 11 => $f(11), 12 => $f(12), 13 => $f(13), 14 => $f(14), _ => $f(15),
+        }
+    };
+}
+
 const POOL: [&str; 16] = ["x", "y", "z", "sqrt", "map", "inputs", "constants", "if", "then", "else", "true", "false", "null", "and", "or", "w"];
 // what the statement says can never be bound at top level: keywords, built-in names, inputs, constants
 fn reserved(i: usize) -> bool { i >= 3 && i <= 14 }
@@ -87,8 +96,13 @@ fn make_env() -> (Rc<Environment>, Rc<Environment>) {
 #[kani::stub(std::hash::RandomState::new, crate::verif_common::rs_stub)]
 #[kani::stub(crate::expressions::evaluate_ast, probe_eval)]
 fn u_assign_toplevel() {
+    // the name is dispatched to CONSTANT pool entries (symbolic strings through HashMap / from_ident are intractable)
     let i: usize = kani::any();
     kani::assume(i < POOL.len());
+    dispatch16!(i, assign_case);
+}
+
+fn assign_case(i: usize) {
     let ident = POOL[i].to_string();
     let (parent, env) = make_env();
     expect_env(&env);
@@ -137,6 +151,11 @@ const DO_POOL: [&str; 12] = ["x", "y", "z", "return", "if", "then", "else", "do"
 fn u_doassign() {
     let i: usize = kani::any();
     kani::assume(i < DO_POOL.len());
+    dispatch16!(i, doassign_case);
+}
+
+fn doassign_case(i: usize) {
+    if i >= DO_POOL.len() { return; }
     // outer scope binds y (local to it) and z (its parent); the block scope is a fresh child of it
     let (_grand, outer) = make_env();
     let block = Rc::new(Environment::extend(Rc::clone(&outer)));
@@ -180,16 +199,24 @@ const ENV_POOL: [&str; 3] = ["a", "b", "c"];
 #[kani::unwind(6)]
 #[kani::stub(std::hash::RandomState::new, crate::verif_common::rs_stub)]
 fn u_env_chain() {
+    let k: usize = kani::any();
+    kani::assume(k < 3);
+    let q: usize = kani::any();
+    kani::assume(q < 3);
+    match (k, q) {
+        (0, 0) => env_case(0, 0), (0, 1) => env_case(0, 1), (0, 2) => env_case(0, 2),
+        (1, 0) => env_case(1, 0), (1, 1) => env_case(1, 1), (1, 2) => env_case(1, 2),
+        (2, 0) => env_case(2, 0), (2, 1) => env_case(2, 1), _ => env_case(2, 2),
+    }
+}
+
+fn env_case(k: usize, q: usize) {
     let root = Rc::new(Environment::new());
     // root binds an arbitrary subset of the pool
     let rb: [bool; 3] = kani::any();
     let mut i = 0;
     while i < 3 { if rb[i] { root.insert(ENV_POOL[i].to_string(), hv(i as u32)); } i += 1; }
     let child = Rc::new(Environment::extend(Rc::clone(&root)));
-    let k: usize = kani::any();
-    kani::assume(k < 3);
-    let q: usize = kani::any();
-    kani::assume(q < 3);
     // before: the child sees exactly the root's view
     assert!(opt_same(&child.get(ENV_POOL[q]), &root.get(ENV_POOL[q])), "U-ENV#fresh-child-scope-sees-exactly-the-parent-view");
     assert!(child.contains_key(ENV_POOL[q]) == child.get(ENV_POOL[q]).is_some(), "U-ENV#contains_key-iff-get-is-some");
